@@ -311,6 +311,22 @@ the same as long as `ClientSession.SetRoom` calls `onRoomSet` and `onRoomSet` as
 both as unconditional top-level statements -- regenerated on every run. -/
 theorem C04_view_reset_on_room_change : Generated.Hub.viewResetOnRoomChange = true := by decide
 
+/-- **`Room.RemoveSession`, any kind of member** (ordinary, internal, virtual).  From every reachable state in which the
+listeners of a room hold its member set, removing a member — table update, `leave` event, and the participants
+list that follows the leave of an internal client — leaves all of them with the new member set. -/
+theorem C04_room_remove_keeps_observers_right (ops : List Op) (outs : List Out) (closes : List Nat) (b : Nat) (r : String)
+    (s : Nat) (kind : Kind) (rm : Room)
+    (hrm : (run {} ops).1.rooms b r = some rm) (hs : s ∈ rm.members)
+    (hv : ∀ l ∈ (run {} ops).1.roomL b r, ∀ t, t ∈ seenOf (run {} ops).1 l ↔ t ∈ rm.members) :
+    ∀ l ∈ (run {} ops).1.roomL b r, ∀ t,
+      t ∈ seenOf (roomRemoveSession ⟨(run {} ops).1, outs, closes⟩ b r s kind).h l ↔ t ∈ removeL rm.members s := by
+  have hi := reachable_inv ops
+  generalize (run {} ops).1 = h at *
+  apply roomRemoveSession_views_any ⟨h, outs, closes⟩ b r s kind rm hrm hs (hi.roomL_nodup b r) _ hv
+  intro l hl
+  obtain ⟨y, hy, _, hyr, hyk⟩ := (hi.roomL_iff b r l).mp hl
+  exact ⟨y, hy, hyk, by simp [hyr]⟩
+
 /-- Non-vacuity / witness: in the demo history below every observer's view is its room's member set, and the
 publication theorem's premises are met by two sessions. -/
 example : viewBad (run {} [.connect 1, .connect 2, .hello 1 0 .client "alice" false false,
